@@ -547,3 +547,27 @@ def set_iteration(ctx, modules, rule="DET-set", attr_modules=None, unordered_att
                 ("the order depends on the hash seed of the process, so the result may differ from run to run" if what == "set"
                  else "its order is the order in which the entries were created, not their key order"))
   return n
+
+
+# ---------------------------------------------------------------------------------------
+# LINT-i: a number that may legitimately be zero is defaulted with `or`
+# ---------------------------------------------------------------------------------------
+
+_NUMERIC_CTORS = {"int", "float", "round", "len", "Fraction", "abs", "ord"}
+
+
+def falsy_numeric_default(ctx, modules, rule="LINT-i"):
+  """`int(x) or d`, `float(x) or d`, `len(x) or d` (also under a conditional expression test):
+  the default replaces the value 0 as well as a missing value."""
+  n = 0
+  for m in _iter_modules(ctx, modules):
+    for node in ast.walk(m.tree):
+      if isinstance(node, ast.BoolOp) and isinstance(node.op, ast.Or) and len(node.values) >= 2:
+        first = node.values[0]
+        if isinstance(first, ast.Call) and isinstance(first.func, ast.Name) and first.func.id in _NUMERIC_CTORS \
+            and not isinstance(node.values[-1], ast.Compare) and not isinstance(getattr(node, "_parent", None), (ast.If, ast.While, ast.BoolOp, ast.UnaryOp)):
+          n += 1
+          ctx.unit(m)
+          ctx.bad(rule, f"{ctx.ix.scope_name(m, node)}|{short(node, 60)}", ctx.where(m, node),
+                  f"`{short(node, 70)}` uses `or` to supply a default for a number: the value 0 is replaced as well (a legitimate 0 - transparent alpha, zero offset - becomes {short(node.values[-1], 20)})")
+  return n
